@@ -28,8 +28,9 @@ RULE = ("Hypothesis draws a strongly connected count matrix (random pattern unit
         "differential. Non-trivial = n>=3, C asymmetric and at least one off-diagonal pair with c_ij = c_ji = 0; "
         "distinct = distinct canonical JSON.")
 ASSUMPTIONS = [
-    "the private implementations (_prinz_mle_py, libmsm._mle_prinz_dense) are called with a dense float64 C-contiguous "
-    "ndarray (the compiled one has a typed float64 buffer signature); integer dtypes and sparse containers go through "
+    "the private implementations (_prinz_mle_py, libmsm._mle_prinz_dense) are called with a dense float64 ndarray in one "
+    "of four memory layouts (C, Fortran, transposed view, strided view; the compiled one has a typed float64 buffer "
+    "signature); integer dtypes and sparse containers go through "
     "the public builders.mle only",
     "optimality / self-consistency / agreement are asserted only when the run did not emit a ConvergenceWarning "
     "(the statement allows 'a model or a convergence warning'); a warned model must still be finite, row-stochastic and reversible",
@@ -83,9 +84,24 @@ def run_impl(which, B, **kw):
     """-> (T, pi, warned).  Any exception propagates (= violation of 'terminates with a model or a warning')."""
     B = np.ascontiguousarray(B, dtype=np.float64)
     fn = builders._prinz_mle_py if which == "py" else builders._prinz_mle
+    # the same matrix in another memory layout (chosen from its own content, so a case always uses the same one):
+    # C-ordered, Fortran-ordered, a transposed view of the transposed data, or a strided view of a larger buffer
+    lay = int(abs(B).sum() * 7) % 4
+    if lay == 1:
+        A = np.asfortranarray(B.copy())
+    elif lay == 2:
+        A = np.ascontiguousarray(B.T).T
+    elif lay == 3:
+        big = np.full((2 * B.shape[0], 2 * B.shape[1] + 1), 5.0)
+        A = big[::2, 1::2]
+        A[...] = B
+    else:
+        A = B.copy()
+    require(np.array_equal(A, B), "harness: layout changed values")
     with warnings.catch_warnings(record=True) as w:
         warnings.simplefilter("always")
-        out = fn(B.copy(), **kw)
+        out = fn(A, **kw)
+    require(np.array_equal(A, B), "%s implementation modified the counts it was given" % which)
     require(isinstance(out, tuple) and len(out) == 2, "%s implementation must return (T, pi)" % which, got=type(out))
     # the returned model belongs to the caller: estimating another matrix of the same size may not change it
     snap = (np.array(out[0], copy=True), np.array(out[1], copy=True))
